@@ -173,6 +173,37 @@ Definition rfc_value (e : ie) (v : value) : option (list byte) :=
   | _, _ => None
   end.
 
+(* 7: what precedes the content octets of a field in a data record whose template gives the
+   element the width [w]: nothing for a fixed width; for the variable-length width 65535 the
+   content length in one octet when it is below 255, otherwise 255 followed by the length in
+   two octets *)
+Definition rfc_prefix (w : N) (c : list byte) : list byte :=
+  if N.eqb w 65535 then
+    if Nat.ltb (length c) 255 then [n2b (N.of_nat (length c))]
+    else xff :: be 2 (N.of_nat (length c))
+  else [].
+(* the content fits the width: exactly [w] octets, or at most 65535 for a variable-length one *)
+Definition field_fits (w : N) (c : list byte) : Prop :=
+  (w = 65535 -> N.of_nat (length c) <= 65535) /\ (w <> 65535 -> N.of_nat (length c) = w).
+(* a data record on the wire: every field's prefix and content octets, in template order *)
+Definition rfc_field (w : N) (c : list byte) : list byte := rfc_prefix w c ++ c.
+
+(* 6.1 / 6.2: the width a template gives an element of each abstract data type (no
+   reduced-size encoding: the exporter never uses it); octet arrays have any fixed width or
+   are variable-length, strings are variable-length *)
+Definition rfc_width_ok (e : ie) : bool :=
+  match ie_dt e with
+  | Unsigned8 | Signed8 | Boolean => N.eqb (ie_len e) 1
+  | Unsigned16 | Signed16 => N.eqb (ie_len e) 2
+  | Unsigned32 | Signed32 | Float32 | DateTimeSeconds | Ipv4Address => N.eqb (ie_len e) 4
+  | Unsigned64 | Signed64 | Float64 | DateTimeMilliseconds => N.eqb (ie_len e) 8
+  | MacAddress => N.eqb (ie_len e) 6
+  | Ipv6Address => N.eqb (ie_len e) 16
+  | String_ => N.eqb (ie_len e) 65535
+  | OctetArray => ie_len e <=? 65535
+  | _ => false
+  end.
+
 (* the field specifier RFC 7011 prescribes for an element *)
 Definition rfc_fspec (e : ie) : fspec :=
   if N.eqb (ie_ent e) 0 then mkFS false (ie_id e) (ie_len e) None
